@@ -320,13 +320,19 @@ func (evm *EVM) Call(ctx context.Context, caller ethvm.ContractRef, addr common.
 			ret, err = nil, nil // gas is unchanged
 		} else {
 			preCallFailed := false
+			// calldata is a required field of the join point messages: an empty
+			// calldata must be sent as an empty (not an absent) byte string
+			jpData := input
+			if jpData == nil {
+				jpData = []byte{}
+			}
 			if evm.IsExecuteJP {
 				preCallResult := djpm.AspectInstance().PreContractCall(ctx, caller.Address(), addr, input, int64(blockNum), gas, value, &types.PreContractCallInput{
 					Call: &types.PreExecMessageInput{
 						From:  caller.Address().Bytes(),
 						To:    addr.Bytes(),
 						Index: &currentCall.Index,
-						Data:  input,
+						Data:  jpData,
 						Value: value.Bytes(),
 						Gas:   &gas,
 					},
@@ -368,7 +374,7 @@ func (evm *EVM) Call(ctx context.Context, caller ethvm.ContractRef, addr common.
 						From:  caller.Address().Bytes(),
 						To:    addr.Bytes(),
 						Index: &currentCall.Index,
-						Data:  input,
+						Data:  jpData,
 						Value: value.Bytes(),
 						Gas:   &gas,
 						Ret:   ret,
